@@ -17,12 +17,20 @@ reg("C17",
          "with the tripper's clock hook) x target present / absent / repeated / below first streamable / empty and "
          "all-zero id x inclusive / exclusive x MaxHoldOff in {default 15000, 0, 1, 2, 3, 5, 10, -1, -7, 1000} x "
          "GetProtocolFirstStreamableBlock in {0,1,2,3,5,100,2^32} x heights near 0, 2^32, 2^63, 2^64 x handler failing on "
-         "chosen calls; a malformed stream (colliding / empty ids, arbitrary steps); corpus: the New-before-Irreversible "
+         "chosen calls (every failure a distinct error value, compared by identity per call); a malformed stream "
+         "(colliding / empty ids, arbitrary steps); ids close to the target (letter case, 0x prefix, one character more "
+         "or less, spaces); obj nil / not a ForkableObject and blocks without timestamp where the gate does not read "
+         "them; every block carries a payload and the deprecated fields, every ForkableObject its multi-block step "
+         "fields, and 'unchanged' is the whole message / struct compared with a snapshot at the handler call, after "
+         "the call and after the run; the tripper's tripFunc must run before the handler call; "
+         "corpus: 300 held blocks against limits 5 and 200; the New-before-Irreversible "
          "witness, 15001 held blocks against the default limit, gators without logger; non-trivial = non-empty sequence; "
          "distinct by input",
     trusted_base=["real time enters as one boolean per call (delta < timeToRealtime); RealtimeGate and TimeThresholdGator "
-                  "read the wall clock (time.Since) and are driven with block ages at least one minute away from the "
-                  "threshold; RealtimeTripper is driven through its nowFunc hook including the exact boundary",
+                  "read the wall clock (time.Since): each block is stamped now - age immediately before its call, "
+                  "ages at or above the threshold (exact: never real time) or at least 10 s below it (real time "
+                  "unless the process stalls 10 s between two statements); RealtimeTripper is driven through its "
+                  "nowFunc hook including the exact boundary",
                   "the wrapped handler is an arbitrary state machine in the theorems (Section variable hproc) and a "
                   "recording handler failing on chosen calls in the harness; zap logging is not modelled",
                   "obj passed to the irreversible gates is a *forkable.ForkableObject (another dynamic type panics by "
